@@ -258,6 +258,11 @@ func (b *builder) buildEnvs() error {
 
 // buildLogDir builds the log directory for the DAG.
 func (b *builder) buildLogDir() (err error) {
+	if b.opts.noEval {
+		// Loading for listing / display / validation must not run commands.
+		b.dag.LogDir = os.ExpandEnv(b.def.LogDir)
+		return nil
+	}
 	logDir, err := substituteCommands(os.ExpandEnv(b.def.LogDir))
 	if err != nil {
 		return err
